@@ -19,18 +19,14 @@ CHECKS = {
         engine='xplore',
         technique='bounded exhaustive input-space exploration of the real pipeline against an independent levelized-cost reference (all economic model x end-use x plant x reservoir combinations, deviation-bounded alphabets)',
         category='exploration',
-        text=('Every execution in the complete product 3 economic models x 32 end-use/plant pairs x 4 reservoir models x shapes, '
-              'plus all single deviations (pairs in thorough) over rate/cost alphabets and structural deviations (add-ons, '
-              'redrilling, fixed totals, carbon), is compared at 1e-9 with an independent implementation of the branch table and '
-              'with the printed report lines.'),
+        text=('Every execution in the complete product 3 economic models x 32 end-use/plant pairs x 4 reservoir models x shapes, plus all single deviations (pairs in thorough) over rate/cost alphabets and structural deviations (add-ons, both extensions together, redrilling, fixed totals, carbon, plant type left out), and the closed-loop (SBT) family, is compared at 1e-9 with an independent implementation of the branch table and with the printed report lines.'),
         design_ref='DESIGN.md section 4 C01',
-        note='Trusts the branch table restated in vf/oracles/econ_ref.py as the documented definition; reported other annual costs taken as reported.'),
+        note='Trusts the branch table restated in vf/oracles/econ_ref.py as the documented definition. For direct use the pumping and heat-pump electricity costs are derived from the yearly energy series and the electricity rate; the district-heating peaking-fuel average and the cogeneration pumping cost are taken as reported.'),
     'C03': dict(
         engine='xplore',
         technique='bounded exhaustive input-space exploration (all override/adjustment/incentive deviations, pairs over interaction sets, correlation x depth grid) against an independent cost roll-up',
         category='exploration',
-        text=('Roll-up identities for capital and O&M totals, exact use of user-fixed figures, ITC/grant/fee arithmetic and '
-              'per-well cost against an own copy of the published cost curves, on every execution of the enumerated space.'),
+        text=('Roll-up identities for capital and O&M totals, exact use of user-fixed figures (alone, with their adjustment factor, with a user total), ITC/grant/fee arithmetic, per-well cost against an own copy of the published cost curves, lateral cost computed from the inputs (standard and SBT well fields), on every execution of the enumerated space.'),
         design_ref='DESIGN.md section 4 C03',
         note='Own copy of the drilling-cost coefficients; user-fixed status read from the generated input, not from model flags.'),
     'C04': dict(
@@ -45,18 +41,14 @@ CHECKS = {
         engine='xplore',
         technique='bounded exhaustive exploration: complete product of layer layouts at reservoir level (real Model/read/Calculate) plus end-to-end reservoir-model x drawdown alphabets, against an independent layer-walk and restart-periodicity reference',
         category='exploration',
-        text=('Bottom-hole temperature and the capped depth for every 1..3-segment layout (and 4-segment layouts within two deviations) over '
-              'depth/Tmax/Tsurf alphabets; start value, drawdown limit, restart periodicity and (models 3,4) monotonicity/upper bound on every '
-              'time step of every end-to-end execution.'),
+        text=('Bottom-hole temperature and the capped depth for every 1..3-segment layout (and 4-segment layouts within two deviations) over depth/Tmax/Tsurf alphabets; start value, drawdown limit (incl. Maximum Drawdown 1 with drawdown parameter x lifetime > 1), restart periodicity, closed-form redrilling count (model 4) and (models 3,4) monotonicity/upper bound on every time step of every end-to-end execution.'),
         design_ref='DESIGN.md section 4 C05',
         note='Heuristic-triggering magnitudes excluded; monotonicity only where bottom-hole >= injection temperature.'),
     'C07': dict(
         engine='xplore',
         technique='finite complete enumeration: every float/int parameter of every instantiated module x boundary/outside probes, per configuration family, on the real client and the real parameter reader',
         category='exploration',
-        text=('Complete per family (14 families incl. SBT, SUTRA, AGS, CLGS, add-ons, S-DAC-GT, HIP-RA-X): outside values must be rejected by the '
-              'client with a message naming the parameter and no report; bounds must be read and held unaltered (a constant unit rescale is told '
-              'apart from a clamp by a third interior probe).'),
+        text=('Complete per family (14 families incl. SBT, SUTRA, AGS, CLGS, add-ons, S-DAC-GT, HIP-RA-X): outside values (neighbours of the bounds, gaps, declared defaults outside the range, fractional non-members of option inputs, the just-above-maximum quantity written in another catalogue unit) must be rejected by the client with a message naming the parameter and no report; bounds must be read and held unaltered (a constant unit rescale is told apart from a clamp by a third interior probe).'),
         design_ref='DESIGN.md section 4 C07',
         note='Boundary probes stop after parameter reading. List parameters excluded. Two documented configuration overrides exempted (evidence lists them).'),
     'C15': dict(
@@ -79,9 +71,7 @@ CHECKS = {
         engine='poolx+ilvx',
         technique='stateless model checking of the real code: exhaustive enumeration of all task-to-worker assignments (set partitions) under a fork-faithful controlled process pool, plus preemption-bounded exhaustive interleaving exploration of the real pylocker append protocol under a controlled scheduler',
         category='exploration',
-        text=('Every assignment of K iterations to <=W forked workers is executed with the real main()/work_package (distinctness, support, '
-              'call conformance, row count); every interleaving of two real Locker-guarded appends up to 3 preemptions (sleeps are free '
-              'switches) is executed on real files with os._exit semantics at worker exit. Coverage statement for the stated bounds.'),
+        text=('Every assignment of K iterations to <=W forked workers is executed with the real main()/work_package, also in a process that already served another Monte-Carlo request (distinctness of vectors and of each input, support, call conformance incl. the "#" placeholder, recorded value == drawn value, row count); every interleaving of two real Locker-guarded appends up to 3 (thorough 6) preemptions (sleeps are free switches) is executed on real files with os._exit semantics at worker exit. Coverage statement for the stated bounds.'),
         design_ref='DESIGN.md sections 3.4, 3.5, 4 C13',
         note=('Independence decided through checkable consequences, not statistics. Append atomicity of a single write(2) assumed. '
               'Worker exit modelled as os._exit (confirmed with real processes in demos/).')),
@@ -89,18 +79,14 @@ CHECKS = {
         engine='poolx+ilvx',
         technique='fault enumeration on the real code: all 2^K subsets of failing iterations x all task-to-worker assignments under the controlled pool with scripted samples, every row re-simulated; preemption-bounded exhaustive interleavings of concurrent appends',
         category='fault_enumeration',
-        text=('All fail subsets x all assignments for three bases x three output lists; each surviving row replayed through the real client and '
-              'compared token by token in header order; statistics and JSON recomputed from the rows; interleavings as C13 with rows of '
-              'different lengths.'),
+        text=('All fail subsets x all assignments for three bases x three output lists; long runs whose batching depends on the CPU count or the iteration count (K=8 with one CPU, K=33 with every position of one failing iteration); each surviving row replayed through the real client and compared token by token in header order; statistics and JSON recomputed from the rows; interleavings as C13 with rows of different lengths.'),
         design_ref='DESIGN.md sections 3.4, 3.5, 4 C14',
         note='Scripted samples replace numpy draws inside the Monte-Carlo module only; open known findings listed in known_findings.json.'),
     'C11': dict(
         engine='xplore',
         technique='bounded exhaustive exploration of run pairs (metamorphic relations) on the real pipeline over the complete economic-model x end-use grid',
         category='exploration',
-        text=('Linear scaling of every levelized cost under k-scaling of all cost inputs (k in {0.5,2,3}); price moves leave levelized costs '
-              'bit-identical and move NPV strictly with the price series when the product is sold; efficiency halving doubles LCOH; seven '
-              'neutral elements change no output and no report line outside the extended block.'),
+        text=('Linear scaling of every levelized cost under k-scaling of all cost inputs (k in {0.5,2,3}); price moves (distinct schedule per product) leave levelized costs bit-identical and move NPV strictly with the price series when the yearly energy sold is positive; efficiency halving doubles LCOH; seven neutral elements change no output and no report line outside the extended block, also on a declining field with negative net generation; standard and SBT families.'),
         design_ref='DESIGN.md section 4 C11',
         note='Each run of a pair executes in its own pristine child; price direction derived from price_ref.'),
     'C18': dict(
@@ -124,34 +110,28 @@ CHECKS = {
         engine='xplore',
         technique='explicit-state reachability of the configuration-selection machine (complete product of selector values on the real Model constructor and reader) followed by complete set comparison with the real generator output and enforcement probes',
         category='exploration',
-        text=('10368 real constructions -> reachable module-class tuples (states) -> union of accepted parameters; set equality with the generated '
-              'request schema; type/default/unit/bounds for identically defined parameters; committed vs generated artefacts; schema bounds probed '
-              'through the real reader; every result-schema field extracted from some stored or generated report.'),
+        text=('10368 real constructions -> reachable module-class tuples (states) -> union of accepted parameters; set equality with the generated request schema; type/default/unit/bounds for identically defined parameters; committed vs generated artefacts, generated in a fresh interpreter and in one that has already simulated; schema bounds probed through the real reader; schema defaults probed behaviourally (left out == default supplied, by-design presence switches excluded mechanically from the source); every result-schema field extracted from some stored or generated report.'),
         design_ref='DESIGN.md section 4 C19',
         note='Seven deliberately redefined parameters excluded from the bound/default clause as the property says (listed in evidence).'),
     'C12': dict(
         engine='xplore',
         technique='exhaustive enumeration of layout orbits of one parameter set on the real pipeline (all n! orders for 6-line inputs; complete 1-move, rotation, transposition and decoration orbits for full-size inputs)',
         category='exploration',
-        text=('Every member of each orbit is executed in its own pristine process and must give bit-identical computed results and an identical report; '
-              'duplicates with a different value placed before the governing line exercise last-occurrence-wins.'),
+        text=("Every member of each orbit is executed in its own pristine process and must give bit-identical computed results and an identical report: all orders of seven small inputs; for full inputs (incl. SBT, a list-style gradient input, an add-ons + S-DAC-GT input moved block-wise) reversal, sorts, rotations, transpositions, single-line moves, decorations incl. the twelve exotic whitespace characters; duplicates with a different value before the governing line, x, y, x triples, identical duplicates; the client's override dictionary on a base file x six layouts of the file's end."),
         design_ref='DESIGN.md section 4 C12',
         note='Structural options read by Model.__init__ are excluded from the different-value duplicate test.'),
     'C08': dict(
         engine='histx',
         technique='explicit-state search over request histories on the real process: all histories up to a depth over a fixed event menu, each replayed in one forked process, with the process-state vector as canonical state',
         category='exploration',
-        text=('All histories of length <= 2 over 12 events (+ length 3 over 6; thorough: length <= 3 over 15) incl. failing requests, file rewrites '
-              'between calls, caching and non-caching clients, HIP-RA-X; every result compared with the isolated run of the same content (three '
-              'hash seeds, two directories), cwd/argv identity after every call, process-state vector against the pristine one.'),
+        text=('All histories of length <= 2 over 23 events (+ length 3 over 9; thorough: length <= 3 over 30, length <= 2 over 40, then a depth-4 frontier pruned on the process-state digest with a soundness check of the pruning): succeeding requests of every module family, failing requests (while reading / calculating / printing / bare sys.exit), rewrite-and-ask-again with succeeding or aborting content, newer / unchanged / older modification time, a new or the same request object, base file + override dictionary on a rewritten base, caching and non-caching clients, HIP-RA-X. Every result is compared with the isolated run of the same content (three hash seeds, two directories); cwd/argv identity after every call; process-state vector (incl. a digest of the library module-/class-level containers) against the pristine one.'),
         design_ref='DESIGN.md sections 3.3, 4 C08',
         note='Memo tables (lru_cache, pint registry) are treated as pure caches and reported, not compared.'),
     'C20': dict(
         engine='histx',
         technique='finite complete product enumeration (input x entry point x output argument x starting directory) on the real entry points, the CLI as real subprocesses',
         category='exploration',
-        text=('112 executions covering every combination; reports compared across entry points, report/JSON placement and exit status on the CLI, '
-              'relative output-file parameters resolved against the starting directory, no report after a failing simulation.'),
+        text=('340 executions covering every combination of 10 inputs x {command line x 5 output arguments (run from a private symlink view of the source tree, so that stray files are attributable), client, direct main(), Monte-Carlo-embedded client, each in a fresh interpreter and after three kinds of earlier request} x 2 starting directories; reports compared across entry points, report/JSON placement and exit status on the CLI, relative output-file parameters resolved against the starting directory, no report after a failing simulation.'),
         design_ref='DESIGN.md section 4 C20',
         note='Direct main() is driven with absolute paths.'),
     'C09': dict(
@@ -167,17 +147,14 @@ CHECKS = {
         engine='xplore',
         technique='bounded exhaustive exploration: the generated report corpus of every writer branch combination plus all stored reports, client parser compared field by field and cell by cell with an independent tokeniser; JSON against the snapshot; re-parsing under three hash seeds in fresh interpreters',
         category='exploration',
-        text=('Every non-empty client field must be the number and unit of the line with exactly that label in its own section; every profile table '
-              'row for row; as_csv() re-read equals the result; JSON quantities equal the pre-print snapshot; parses identical under PYTHONHASHSEED 0/1/12345.'),
+        text=('Every non-empty client field must be the number and unit of the line with exactly that label in its own section; every profile table row for row; as_csv() re-read equals the result, a second export equals the first and leaves the result object unchanged; JSON quantities equal the pre-print snapshot; parses identical under PYTHONHASHSEED 0/1/12345.'),
         design_ref='DESIGN.md section 4 C10',
         note='JSON-vs-report decided as JSON-vs-snapshot (C09 ties snapshot to text).'),
     'C06': dict(
         engine='xplore',
         technique='finite complete enumeration per configuration family of (input parameter x catalogue unit) and (output parameter x catalogue unit) pairs on the real pipeline, each compared relationally with the run in the declared unit using an own conversion table',
         category='exploration',
-        text=('Every float input parameter x every convertible catalogue unit: computed results equal (1e-7) and every report line denotes the same '
-              'quantity; every output parameter x convertible unit through the Units: directive: pre-print results identical, changed lines in the '
-              'requested unit, table columns change by the exact factor. Complete for the families listed.'),
+        text=("Every float input parameter x every convertible catalogue unit: computed results equal (1e-7, judged against the run's own rounding sensitivity when a model amplifies a 5e-13 perturbation) and every report line denotes the same quantity; ordered pairs of inputs of one unit type with different declared units written together; every output parameter x convertible unit through the Units: directive: pre-print results identical, changed lines in the requested unit, table columns change by the exact factor. Complete for the families listed (standard, over-pressure / injection reservoir, SBT, SUTRA, add-on + S-DAC-GT; thorough adds three standard families and AGS)."),
         design_ref='DESIGN.md section 4 C06',
         note='Own conversion table vf/oracles/units_ref.py; exchange-rate currencies not exercised. 145 narrowly keyed open findings (the unit machinery of the pinned tree is broadly defective; an existing test pins the design that causes the echo defect).'),
 }
